@@ -72,22 +72,30 @@ def _sig(c):
     return tuple(names), nd
 
 
-def _gk_native(c, p):
+def _gk_obj(c, p):
+    return {}           # signature -> the class built for it (one process keeps asking about the same classes)
+
+
+def _gk_call(c, reg, p):
     from taurex.parameter.factory import get_keywordarg_dict
     names, nd = c.values['sig']
-    nd = nd or 0
-    params = list(names[1:])
-    src = 'def __init__(self%s): pass' % ''.join(', %s%s' % (n, ('=%r' % (10.0 + (i - (len(params) - nd)))) if i >= len(params) - nd else '')
-                                                for i, n in enumerate(params))
-    ns = {}
-    exec('class K:\n    ' + src, ns)
-    return get_keywordarg_dict(ns['K'], False), p
+    key = (tuple(names), nd)
+    if key not in reg:
+        nd_ = nd or 0
+        params = list(names[1:])
+        src = 'def __init__(self%s): pass' % ''.join(', %s%s' % (n, ('=%r' % (10.0 + (i - (len(params) - nd_)))) if i >= len(params) - nd_ else '')
+                                                    for i, n in enumerate(params))
+        ns = {}
+        exec('class K:\n    ' + src, ns)
+        reg[key] = ns['K']
+    return get_keywordarg_dict(reg[key], False), p
 
 
 _SIGS = [(('self',), None), (('self', 'a'), None), (('self', 'a'), 1), (('self', 'a', 'b'), 1), (('self', 'a', 'b'), 2), (('self', 'a', 'b', 'c'), 2)]
 GK = Unit(['C15', 'C16'], FA + 'get_keywordarg_dict', _gk_params, post=_gk_post, cases=[{'sig': s} for s in _SIGS], bounds=[{}],
-          native=_gk_native, gen=lambda rng: dict(sig=rng.choice(_SIGS)), short='get_keywordarg_dict',
-          doc='constructor keyword discovery (non-mixin classes): keyword -> default for the defaulted parameters '
+          native_obj=_gk_obj, native_call=_gk_call, fresh_result=True, gen=lambda rng: dict(sig=rng.choice(_SIGS)), short='get_keywordarg_dict',
+          doc='constructor keyword discovery (non-mixin classes): keyword -> default for the defaulted parameters, in a '
+              'dictionary the caller owns (create_klass overwrites its entries with the configured values) '
               '(inspect.getfullargspec: assumed model)')
 
 
